@@ -39,6 +39,9 @@ def run(tier, seed, only=None):
     units = [u for u in UU.units((ID,)) if u.name.endswith('.construct')]
     units += [u for u in UU.update_units((ID,)) if 'construct' in u.name]
     units += [u for u in C14.units_simple() if u.name.endswith('.construct')] + [C14.unit_open_construct()]
+    from .framing_units import framing_units
+    units += framing_units((ID,), strict=False)
+    units += UU.tunnel_encaps_units((ID,))
     for u in units:
         if only and u.name not in only:
             continue
